@@ -257,6 +257,9 @@ func c08Run(r *kit.Run, idx int64, rng *rand.Rand) {
 		if nstatic == 0 {
 			nstatic = 1 + rng.IntN(3)
 		}
+		// and subscribers that join for good in the middle of the churn: what
+		// is published after their Subscribe returned is theirs
+		nlate += 3 + rng.IntN(4)
 	}
 	strangers := make([]int64, redundant) // publication counts at which a stranger channel is unsubscribed
 	if nstatic+nlate == 0 {
@@ -353,12 +356,26 @@ func c08Run(r *kit.Run, idx int64, rng *rand.Rand) {
 		var mmu sync.Mutex
 		var mwg sync.WaitGroup
 		total := int64(npub * nmsg)
+		var prevAt int64
+		var gate *kit.Barrier
 		for k := 0; k < nlate; k++ {
 			at := rng.Int64N(total + 1)
+			var bar *kit.Barrier
+			if k%2 == 1 {
+				// joiners come in pairs: two subscription changes at the same moment
+				at, bar = prevAt, gate
+			} else if k+1 < nlate {
+				gate = kit.NewBarrier(2)
+				bar = gate
+			}
+			prevAt = at
 			mwg.Add(1)
 			go func() {
 				defer mwg.Done()
 				kit.WaitUntil(c08Watchdog, func() bool { return published.Load() >= at })
+				if bar != nil {
+					bar.Wait()
+				}
 				s := addSub("late")
 				mmu.Lock()
 				subs = append(subs, s)
@@ -391,7 +408,15 @@ func c08Run(r *kit.Run, idx int64, rng *rand.Rand) {
 					mmu.Lock()
 					subs = append(subs, s)
 					mmu.Unlock()
-					kit.Yields(lr.IntN(8))
+					if lr.IntN(2) == 0 {
+						kit.Yields(lr.IntN(8))
+					} else {
+						// stay until a few messages have arrived
+						want := 1 + lr.IntN(4)
+						for spin := 0; spin < 2000 && len(s.snapshot()) < want && published.Load() < total; spin++ {
+							kit.Yields(1)
+						}
+					}
 					s.unsubCall = kit.Stamp()
 					h.b.Unsubscribe(ctx, s.ch)
 					churned.Add(1)
@@ -543,6 +568,29 @@ func c08Run(r *kit.Run, idx int64, rng *rand.Rand) {
 		for si, s := range all {
 			seen := map[uint32]bool{}
 			lastSeq := map[uint32]int{}
+			maxIdx, hasIdx := map[uint32]int{}, map[uint32]bool{}
+			// one dispatch worker, lossless: per publisher the deliveries have no
+			// gap between the first message published after Subscribe returned
+			// and the last message that did arrive (whatever the subscriber did
+			// afterwards) - checked below, after the loop
+			defer func(si int, s *subRec) {
+				if viol != "" {
+					return
+				}
+				for p := range pubs {
+					pid := uint32(p + 1)
+					if !hasIdx[pid] {
+						continue
+					}
+					for k := 0; k <= maxIdx[pid] && k < len(pubs[p]); k++ {
+						if pr := pubs[p][k]; pr.call > s.subRet && !seen[pr.id] {
+							note("message-lost", fmt.Sprintf("subscriber %d (%s) received %s of publisher %d but not the earlier %s, which was published after its Subscribe had returned (one dispatch worker, lossless configuration)",
+								si, s.Kind, fmtIDs([]uint32{pubs[p][maxIdx[pid]].id}), pid, fmtIDs([]uint32{pr.id})))
+							return
+						}
+					}
+				}
+			}(si, s)
 			for _, v := range s.snapshot() {
 				if !pubset[v] {
 					note("invented-message", fmt.Sprintf("subscriber %d (%s) received %s, which was never published", si, s.Kind, fmtIDs([]uint32{v})))
@@ -553,6 +601,11 @@ func c08Run(r *kit.Run, idx int64, rng *rand.Rand) {
 					return
 				}
 				seen[v] = true
+				if cfg.Workers <= 1 && cfg.lossless() {
+					if k := pubOrder[v]; k > maxIdx[v>>16] || !hasIdx[v>>16] {
+						maxIdx[v>>16], hasIdx[v>>16] = k, true
+					}
+				}
 				if cfg.Workers <= 1 && cfg.Backend != "lifo" {
 					p := v >> 16
 					if prev, ok := lastSeq[p]; ok && pubOrder[v] < prev {
